@@ -8,6 +8,8 @@ import (
 	"fmt"
 	"strings"
 
+	"github.com/tendermint/tendermint/libs/log"
+	mpmock "github.com/tendermint/tendermint/mempool/mock"
 	sm "github.com/tendermint/tendermint/state"
 	"github.com/tendermint/tendermint/store"
 	"github.com/tendermint/tendermint/types"
@@ -105,6 +107,53 @@ func newHist(t fataler, test string, initial int64, keys []int, powers []int64, 
 	hs.tr = newTruth(c)
 	hs.ops = append(hs.ops, opRec{Kind: "genesis", Start: 0, End: hs.j.Len()})
 	hs.logf("genesis initial=%d vals=%v powers=%v split=%v", initial, keys, powers, split)
+	return hs
+}
+
+// newSyncedHist: a history that starts from a STATE-SYNCED pair of stores instead of genesis. A source chain is grown
+// (by the caller, on plain databases) to the snapshot height S; the node's state is assembled the way
+// statesync/stateprovider.go State() does it from the verified light blocks S, S+1, S+2 (= the source's state after S
+// with LastHeightValidatorsChanged = S+2 and LastHeightConsensusParamsChanged = S+1) and handed to the stores as
+// node.go startStateSync does: stateStore.Bootstrap(state), blockStore.SaveSeenCommit(S, commit for S). The
+// application is the source's (at height S, as restored from the snapshot). The node then continues the chain: the
+// first block it saves is S+1, which becomes the base of its block store.
+func newSyncedHist(t fataler, test string, initial int64, keys []int, powers []int64, split bool, grow func(src *lib.Chain)) *hist {
+	src, err := lib.NewChain(lib.ChainSpec{InitialHeight: initial, Keys: keys, Powers: powers})
+	if err != nil {
+		t.Fatalf("NewChain: %v", err)
+	}
+	grow(src)
+	S := src.Tip()
+	if S < initial {
+		src.Close()
+		t.Fatalf("harness: the source chain has no block to snapshot")
+	}
+	hs := &hist{t: t, test: test, initial: S + 1, bigPruneFrom: -1, fullLiveMax: 48}
+	hs.j = lib.NewCrashJournal()
+	hs.j.SplitBatches(split)
+	hs.bdb = hs.j.NewDB(blockName)
+	hs.sdb = hs.j.NewDB(stateName)
+	hs.j.SetTag("bootstrap")
+	st := src.States[S].Copy()
+	st.LastHeightValidatorsChanged = S + 2
+	st.LastHeightConsensusParamsChanged = S + 1
+	ss := sm.NewStore(hs.sdb, sm.StoreOptions{})
+	if err := ss.Bootstrap(st); err != nil {
+		src.Close()
+		t.Fatalf("Bootstrap: %v", err)
+	}
+	bs := store.NewBlockStore(hs.bdb)
+	if err := bs.SaveSeenCommit(S, src.Commits[S]); err != nil {
+		src.Close()
+		t.Fatalf("SaveSeenCommit: %v", err)
+	}
+	c := *src // blocks, ids, commits, states of the heights up to S stay on record; the node extends them
+	c.BlockDB, c.StateDB, c.BlockStore, c.StateStore, c.State = hs.bdb, hs.sdb, bs, ss, st
+	c.Exec = sm.NewBlockExecutor(ss, log.NewNopLogger(), src.Proxy.Consensus(), mpmock.Mempool{}, sm.EmptyEvidencePool{})
+	hs.c = &c
+	hs.tr = newTruth(hs.c)
+	hs.ops = append(hs.ops, opRec{Kind: "bootstrap", Start: 0, End: hs.j.Len()})
+	hs.logf("state-synced start: source chain initial=%d vals=%v powers=%v grown to snapshot height %d; Bootstrap + SaveSeenCommit(%d); split=%v", initial, keys, powers, S, S, split)
 	return hs
 }
 
@@ -666,6 +715,8 @@ func opDesc(o opRec) string {
 		return fmt.Sprintf("save(%d)", o.H)
 	case "genesis":
 		return "genesis"
+	case "bootstrap":
+		return "state-sync bootstrap"
 	case "rollback":
 		return fmt.Sprintf("rollback(state %d -> %d)", o.H, o.H-1)
 	case "reapply":
